@@ -216,6 +216,202 @@ fn special_case(c: &J) -> Result<usize, String> {
     Ok(checks)
 }
 
+/// the rotation's element formula, as Kernels.tla states it (FlowPos / FlowVel)
+fn rot_ref(p: f64, v: f64, c: f64, s: f64) -> (f64, f64) {
+    (p * c + v * s, v * c - p * s)
+}
+fn parse_pair(key: &str) -> (f64, f64) {
+    let t: Vec<f64> = key.trim_matches(|ch| ch == '<' || ch == '>').split(',').map(|x| x.trim().parse::<f64>().unwrap()).collect();
+    (t[0], t[1])
+}
+/// a step whose (cos, sin) have the given signs
+fn eps_for(sc: f64, ss: f64) -> f64 {
+    match (sc as i64, ss as i64) {
+        (1, 0) => 0.0,
+        (1, 1) => 0.3,
+        (1, -1) => -1.1,
+        (-1, 1) => 2.5,
+        _ => panic!("no step for signs ({sc}, {ss})"),
+    }
+}
+fn near(got: f64, a: f64, b: f64) -> bool {
+    // got should be a + b evaluated with or without fusing: within 4 ulp of the larger product
+    (got - (a + b)).abs() <= 4.0 * f64::EPSILON * a.abs().max(b.abs()).max(f64::MIN_POSITIVE)
+}
+
+fn flow_case(c: &J) -> Result<usize, String> {
+    let n = c["n"].as_u64().unwrap() as usize;
+    let mut math = CpuMath::new(DummyLogp { dim: n });
+    let (pos, vel, grad) = (ints(&c["pos"]), ints(&c["vel"]), ints(&c["grad"]));
+    let (vp, vg, vv) = (vecof(&mut math, &pos), vecof(&mut math, &grad), vecof(&mut math, &vel));
+    let mut checks = 0;
+    for (e2s, want) in c["gradflow2"].as_object().unwrap() {
+        let eps = e2s.parse::<f64>().unwrap() / 2.0;
+        let want = ints(want);
+        let mut out = math.new_array();
+        math.std_norm_grad_flow(&vp, &vg, &vv, &mut out, eps);
+        let got: Vec<f64> = tov(&mut math, &out).iter().map(|v| v * 2.0).collect();
+        if got != want {
+            return Err(format!("std_norm_grad_flow n={n} eps={eps}: {got:?} vs {want:?}"));
+        }
+        let mut v2 = vecof(&mut math, &vel);
+        math.std_norm_grad_flow_inplace(&vp, &vg, &mut v2, eps);
+        let got: Vec<f64> = tov(&mut math, &v2).iter().map(|v| v * 2.0).collect();
+        if got != want {
+            return Err(format!("std_norm_grad_flow_inplace n={n} eps={eps}: {got:?} vs {want:?}"));
+        }
+        checks += 2;
+    }
+    for (key, want) in c["rot"].as_object().unwrap() {
+        let (cc, ss) = parse_pair(key);
+        let (wp, wv) = (ints(&want[0]), ints(&want[1]));
+        // the harness's reference formula is the specification's
+        for i in 0..n {
+            if rot_ref(pos[i], vel[i], cc, ss) != (wp[i], wv[i]) {
+                return Err(format!("harness reference formula differs from Kernels.tla at n={n} i={i}"));
+            }
+        }
+        if (cc, ss) == (1.0, 0.0) {
+            let mut po = math.new_array();
+            let mut v2 = vecof(&mut math, &vel);
+            math.std_norm_flow(&vp, &mut po, &mut v2, 0.0);
+            if tov(&mut math, &po) != wp || tov(&mut math, &v2) != wv {
+                return Err(format!("std_norm_flow n={n} eps=0 is not the identity"));
+            }
+            checks += 1;
+        }
+    }
+    // real steps: element by element within rounding of the scalar formula
+    for eps in [0.3f64, -1.1, 2.5, std::f64::consts::FRAC_PI_2, 1e-9] {
+        let (cc, ss) = (eps.cos(), eps.sin());
+        let mut po = math.new_array();
+        let mut v2 = vecof(&mut math, &vel);
+        math.std_norm_flow(&vp, &mut po, &mut v2, eps);
+        let (gp, gv) = (tov(&mut math, &po), tov(&mut math, &v2));
+        for i in 0..n {
+            if !near(gp[i], pos[i] * cc, vel[i] * ss) || !near(gv[i], vel[i] * cc, -pos[i] * ss) {
+                return Err(format!("std_norm_flow n={n} eps={eps} element {i}: ({}, {}) instead of {:?}", gp[i], gv[i], rot_ref(pos[i], vel[i], cc, ss)));
+            }
+        }
+        // the input position is not written
+        if tov(&mut math, &vp) != pos {
+            return Err(format!("std_norm_flow n={n} eps={eps} wrote to its input"));
+        }
+        checks += 1;
+    }
+    Ok(checks)
+}
+
+fn flowspecial_case(c: &J) -> Result<usize, String> {
+    let n = c["n"].as_u64().unwrap() as usize;
+    let k = c["k"].as_u64().unwrap() as usize - 1;
+    let sp = special(c["sp"].as_str().unwrap());
+    let mut math = CpuMath::new(DummyLogp { dim: n });
+    let (mut pos, vel, grad) = (ints(&c["pos"]), ints(&c["vel"]), ints(&c["grad"]));
+    pos[k] = sp;
+    let (vp, vg, vv) = (vecof(&mut math, &pos), vecof(&mut math, &grad), vecof(&mut math, &vel));
+    let mut checks = 0;
+    for (key, want) in c["rot"].as_object().unwrap() {
+        let (sc, ss) = parse_pair(key);
+        let eps = eps_for(sc, ss);
+        let (cc, sn) = (eps.cos(), eps.sin());
+        let mut po = math.new_array();
+        let mut v2 = vecof(&mut math, &vel);
+        math.std_norm_flow(&vp, &mut po, &mut v2, eps);
+        let (gp, gv) = (tov(&mut math, &po), tov(&mut math, &v2));
+        for i in 0..n {
+            if i == k {
+                if class(gp[i]) != want[0].as_str().unwrap() || class(gv[i]) != want[1].as_str().unwrap() {
+                    return Err(format!("std_norm_flow special {} at {k} of {n}, eps={eps}: ({}, {}), specification {want}", c["sp"], gp[i], gv[i]));
+                }
+            } else if !near(gp[i], pos[i] * cc, vel[i] * sn) || !near(gv[i], vel[i] * cc, -pos[i] * sn) {
+                return Err(format!("std_norm_flow eps={eps}: element {i} of {n} disturbed by the special value at {k}"));
+            }
+        }
+        checks += 1;
+    }
+    for (e2s, want) in c["gradflow"].as_object().unwrap() {
+        let eps = e2s.parse::<f64>().unwrap() / 2.0;
+        let mut out = math.new_array();
+        math.std_norm_grad_flow(&vp, &vg, &vv, &mut out, eps);
+        let got = tov(&mut math, &out);
+        let mut v2 = vecof(&mut math, &vel);
+        math.std_norm_grad_flow_inplace(&vp, &vg, &mut v2, eps);
+        let got2 = tov(&mut math, &v2);
+        for i in 0..n {
+            if i == k {
+                if class(got[i]) != want.as_str().unwrap() || class(got2[i]) != want.as_str().unwrap() {
+                    return Err(format!("std_norm_grad_flow special {} at {k} of {n}, eps={eps}: {} / {}, specification {want}", c["sp"], got[i], got2[i]));
+                }
+            } else if got[i] != vel[i] + eps * (pos[i] + grad[i]) || got2[i] != got[i] {
+                return Err(format!("std_norm_grad_flow eps={eps}: element {i} of {n} disturbed by the special value at {k}"));
+            }
+        }
+        checks += 2;
+    }
+    Ok(checks)
+}
+
+fn lowrank_with(math: &mut CpuMath<DummyLogp>, n: usize, cols: &[Vec<f64>], vals: &[f64], rhs: &[f64], want: &[f64], scale: f64, what: &str) -> Result<(), String> {
+    let vecs = math.new_eig_vectors(cols.iter().map(|c| c.as_slice()));
+    let ev = math.new_eig_values(vals);
+    let vr = vecof(math, rhs);
+    let mut dest = math.new_array();
+    math.apply_lowrank_transform(&vecs, &ev, &vr, &mut dest);
+    let got: Vec<f64> = tov(math, &dest).iter().map(|v| v * scale).collect();
+    if got != want {
+        return Err(format!("apply_lowrank_transform {what} n={n} rank={}: {got:?} vs {want:?}", cols.len()));
+    }
+    let mut inpl = vecof(math, rhs);
+    math.apply_lowrank_transform_inplace(&vecs, &ev, &mut inpl);
+    let got: Vec<f64> = tov(math, &inpl).iter().map(|v| v * scale).collect();
+    if got != want {
+        return Err(format!("apply_lowrank_transform_inplace {what} n={n} rank={}: {got:?} vs {want:?}", cols.len()));
+    }
+    if tov(math, &vr) != rhs {
+        return Err(format!("apply_lowrank_transform {what} n={n} wrote to its input"));
+    }
+    Ok(())
+}
+
+fn lowrank_case(c: &J) -> Result<usize, String> {
+    let n = c["n"].as_u64().unwrap() as usize;
+    let mut math = CpuMath::new(DummyLogp { dim: n });
+    let cols: Vec<Vec<f64>> = c["cols"].as_array().unwrap().iter().map(|p| {
+        let mut col = vec![0.0; n];
+        col[p[0].as_u64().unwrap() as usize - 1] = p[1].as_f64().unwrap();
+        col
+    }).collect();
+    lowrank_with(&mut math, n, &cols, &ints(&c["vals"]), &ints(&c["rhs"]), &ints(&c["out"]), 1.0, "coordinate columns")?;
+    Ok(3)
+}
+
+fn had_case(c: &J) -> Result<usize, String> {
+    const H4: [[f64; 4]; 4] = [[1., 1., 1., 1.], [1., -1., 1., -1.], [1., 1., -1., -1.], [1., -1., -1., 1.]];
+    let n = c["n"].as_u64().unwrap() as usize;
+    let b = c["b"].as_u64().unwrap() as usize - 1;
+    let mut math = CpuMath::new(DummyLogp { dim: n });
+    let cols: Vec<Vec<f64>> = c["js"].as_array().unwrap().iter().map(|j| {
+        let mut col = vec![0.0; n];
+        for t in 0..4 {
+            col[b + t] = 0.5 * H4[j.as_u64().unwrap() as usize - 1][t];
+        }
+        col
+    }).collect();
+    let (vals, rhs, stds) = (ints(&c["vals"]), ints(&c["rhs"]), ints(&c["stds"]));
+    lowrank_with(&mut math, n, &cols, &vals, &rhs, &ints(&c["out4"]), 4.0, "Hadamard columns")?;
+    let vecs = math.new_eig_vectors(cols.iter().map(|c| c.as_slice()));
+    let ev = math.new_eig_values(&vals);
+    let (vr, vs) = (vecof(&mut math, &rhs), vecof(&mut math, &stds));
+    let mut dest = math.new_array();
+    math.array_mult_eigs(&vs, &vr, &mut dest, &vecs, &ev);
+    let got: Vec<f64> = tov(&mut math, &dest).iter().map(|v| v * 4.0).collect();
+    if got != ints(&c["eigs4"]) {
+        return Err(format!("array_mult_eigs n={n} b={b} rank={}: {got:?} vs {}", cols.len(), c["eigs4"]));
+    }
+    Ok(4)
+}
+
 pub fn main(args: &[String]) -> i32 {
     let path = args.first().cloned().unwrap_or("-".into());
     let reader: Box<dyn BufRead> = if path == "-" {
@@ -236,7 +432,14 @@ pub fn main(args: &[String]) -> i32 {
         cases += 1;
         lens.insert(c["n"].as_u64().unwrap_or(0));
         let r = std::panic::catch_unwind(std::panic::AssertUnwindSafe(|| {
-            if c["kind"] == "exact" { exact_case(&c) } else { special_case(&c) }
+            match c["kind"].as_str().unwrap_or("") {
+                "exact" => exact_case(&c),
+                "flow" => flow_case(&c),
+                "flowspecial" => flowspecial_case(&c),
+                "lowrank" => lowrank_case(&c),
+                "had" => had_case(&c),
+                _ => special_case(&c),
+            }
         }));
         match r {
             Ok(Ok(k)) => {
